@@ -171,6 +171,31 @@ theorem dp_difference_le_of_constraint (ev : Ev) (rows : List Row) (h : List Rat
   simpa only [C03.demographic_parity_difference_def] using And.intro
     (this.1.imp fun D hD => ⟨congrArg some hD.1, hD.2⟩) (this.2.imp fun D hD => ⟨congrArg some hD.1, hD.2⟩)
 
+/-- mean prediction on the frame of the rows of event `e` — ANY rational prediction vector (soft scores, or the
+    expected predictions of a randomised classifier) -/
+theorem meanpred_dict (ev : Ev) (rows : List Row) (h : List Rat) (e : String) (hl : h.length = rows.length) :
+    Dict ev rows h e meanPredSpec (toFrame (inE ev e) rows h) := by
+  constructor
+  · intro r' hr'
+    obtain ⟨t, rfl, ht, hs⟩ := toFrame_group_mem hr'
+    refine ⟨t.1.g, observed_of_inE ht hs, ?_⟩
+    rw [groupOf_toFrame, meanPredSpec_selDat _ rows h hl, mEG_default ev rows h e _ hl]
+    rfl
+  · rw [slice_toFrame, meanPredSpec_selDat _ rows h hl, mE_default ev rows h e hl]
+
+/-- **soft / expected predictions**: DemographicParity satisfied ⇒
+    `MetricFrame(metrics=mean_prediction, …).difference(method="to_overall") ≤ eps`, `"between_groups" ≤ 2·eps`
+    (for hard predictions `mean_prediction` = `selection_rate`, i.e. this is demographic_parity_difference) -/
+theorem meanpred_difference_le_of_constraint (ev : Ev) (rows : List Row) (h : List Rat) (eps : Rat) (e : String)
+    (hl : h.length = rows.length) (hne : ∃ g, Observed ev rows e g)
+    (hg : GammaLe ev rows 1 defaultUtil h eps) :
+    (∃ D, run .meanpred .difference .toOverall true 1 (toFrame (inE ev e) rows h) = .value (fin D) ∧ 0 ≤ D ∧ D ≤ eps) ∧
+    (∃ D, run .meanpred .difference .between true 1 (toFrame (inE ev e) rows h) = .value (fin D) ∧ 0 ≤ D ∧ D ≤ 2 * eps) := by
+  obtain ⟨g0, hg0⟩ := hne
+  have hne' : rows.filter (inE ev e) ≠ [] := List.ne_nil_of_length_pos (countE_pos ev rows e g0 hg0)
+  have hv := toFrame_valid (inE ev e) rows h hl hne'
+  exact difference_le_of_constraint (m := .meanpred) hv (meanpred_finiteOn hv) (meanpred_dict ev rows h e hl) hg
+
 /-- which rows the DP events select: all rows when there are no control features … -/
 theorem dp_all_rows (rows : List Row) (h : List Rat) (hc : ∀ r ∈ rows, r.c = none) :
     toFrame (inE (eventOf .dp) MomentsSrc.allEvent) rows h = toFrame (fun _ => true) rows h := by
@@ -442,6 +467,9 @@ example : (0 : Rat) < mE (eventOf .dp) xRows defaultUtil xH "all" := by decide +
 example : GammaLe (eventOf .dp) xRows 1 defaultUtil
     (mixN xRows.length (fun t => if t < 2 then 1/2 else 0) (fun t => if t = 0 then xH else List.replicate 8 0) 2) (1/8) := by
   decide +kernel
+-- soft predictions: mean_prediction difference
+example : run .meanpred .difference .between true 1 (toFrame (inE (eventOf .dp) "all") xRows [1/2, 1/4, 1, 1/4, 0, 1/2, 1/2, 0])
+    = .value (fin (1/4)) := by decide +kernel
 -- control features: two strata, constraint per stratum
 def xRowsC : List Row :=
   [⟨1, "a", some "x"⟩, ⟨0, "b", some "x"⟩, ⟨1, "a", some "y"⟩, ⟨0, "b", some "y"⟩, ⟨1, "b", some "y"⟩]
